@@ -437,6 +437,7 @@ theorem pointwise_lift_ok (hirr : ∀ x : K, ¬ x < x) (norm : K → K) (epsSq :
   simp only
   rw [hpw]
   simp only [removeSmall_id b m hm]
+  rw [if_neg (fun h => absurd h.1 (by omega))]
   refine ⟨_, rfl, rfl, by simp [mapVals_nrows], by simp [mapVals_nrows], fun i k hi hk => ?_⟩
   have hlt : i * b + k < (mapVals norm A).nrows * b := by
     rw [mapVals_nrows]
